@@ -142,7 +142,7 @@ func (r *rewriter) collect() {
 				r.targets = append(r.targets, n)
 			}
 		case *ast.RangeStmt:
-			if r.isMapExpr(n.X) {
+			if r.isMapExpr(n.X) || isChanExpr(n.X) {
 				r.targets = append(r.targets, n)
 			}
 		case *ast.AssignStmt:
@@ -294,6 +294,21 @@ func (r *rewriter) rewrite(n ast.Node) string {
 		return "__vs.MapSet(" + r.node(ix.X) + ", " + r.node(ix.Index) + ", " + r.node(n.Rhs[0]) + ")"
 	case *ast.RangeStmt:
 		r.usedVs = true
+		if isChanExpr(n.X) && !r.isMapExpr(n.X) {
+			// for v := range ch  ->  for { v, ok := Recv2(ch); if !ok { break }; ... }
+			recv := "__vs.Recv2(" + r.node(n.X) + ")"
+			hdr := "_, __rok := " + recv
+			if n.Key != nil {
+				if id, ok := n.Key.(*ast.Ident); !ok || id.Name != "_" {
+					if n.Tok == token.DEFINE {
+						hdr = r.node(n.Key) + ", __rok := " + recv
+					} else {
+						hdr = "var __rok bool; " + r.node(n.Key) + ", __rok = " + recv
+					}
+				}
+			}
+			return "for {" + hdr + "; if !__rok { break };" + r.inner(n.Body.Lbrace+1, n.Body.End(), nil)
+		}
 		m := r.node(n.X)
 		key := "__mk"
 		pre := ""
@@ -436,6 +451,60 @@ func (r *rewriter) isMapExpr(e ast.Expr) bool {
 		return r.mapNames[x.Sel.Name]
 	}
 	return false
+}
+
+// curChanNames: identifiers / field names declared with a channel type in the
+// package being instrumented (range over a channel is recognised by name, like
+// maps: the rewriter has no type information).
+var curChanNames = map[string]bool{}
+
+func isChanExpr(e ast.Expr) bool {
+	switch x := unparen(e).(type) {
+	case *ast.Ident:
+		return curChanNames[x.Name]
+	case *ast.SelectorExpr:
+		return curChanNames[x.Sel.Name]
+	}
+	return false
+}
+
+func collectChanNames(f *ast.File, out map[string]bool) {
+	isChan := func(t ast.Expr) bool { _, ok := t.(*ast.ChanType); return ok }
+	isMakeChan := func(e ast.Expr) bool {
+		if c, ok := e.(*ast.CallExpr); ok {
+			if id, ok := c.Fun.(*ast.Ident); ok && id.Name == "make" && len(c.Args) > 0 {
+				return isChan(c.Args[0])
+			}
+		}
+		return false
+	}
+	ast.Inspect(f, func(n ast.Node) bool {
+		switch n := n.(type) {
+		case *ast.Field:
+			if n.Type != nil && isChan(n.Type) {
+				for _, id := range n.Names {
+					out[id.Name] = true
+				}
+			}
+		case *ast.ValueSpec:
+			for i, id := range n.Names {
+				if (n.Type != nil && isChan(n.Type)) || (i < len(n.Values) && isMakeChan(n.Values[i])) {
+					out[id.Name] = true
+				}
+			}
+		case *ast.AssignStmt:
+			if n.Tok == token.DEFINE {
+				for i, v := range n.Rhs {
+					if i < len(n.Lhs) && isMakeChan(v) {
+						if id, ok := n.Lhs[i].(*ast.Ident); ok {
+							out[id.Name] = true
+						}
+					}
+				}
+			}
+		}
+		return true
+	})
 }
 
 // collectMapNames gathers (syntactically) the names declared with a map type
@@ -602,6 +671,7 @@ func main() {
 			os.Exit(2)
 		}
 		mapNames := map[string]bool{}
+		curChanNames = map[string]bool{}
 		fieldNames := map[string]bool{}
 		wantFields := false
 		for _, rp := range strings.Split(*raceFields, ",") {
@@ -616,6 +686,7 @@ func main() {
 			}
 			if pf, err := parser.ParseFile(token.NewFileSet(), filepath.Join(j.srcDir, name), nil, parser.SkipObjectResolution); err == nil {
 				collectMapNames(pf, mapNames)
+				collectChanNames(pf, curChanNames)
 				if wantFields {
 					collectFieldNames(pf, fieldNames)
 				}
